@@ -47,3 +47,20 @@ Definition spec_union (s0 : jv) (l : list (string * jv)) : jv := group (List.len
 (* trailing clauses attach to the whole chain *)
 Definition with_tail (chain : jv) (tail : list (string * jv)) : jv :=
   match tail with [] => chain | _ => JDict (("from", chain) :: tail) end.
+
+(* ---------------- join chains (to_join_call) ----------------
+   A join that carries no ON / USING takes the join that follows it as its `child`; the grammar therefore hands to_join_call a nest
+   J o1 (Some (J o2 (Some ...))), and the action flattens it back: [output, *child].  Joins with ON / USING end a nest; ZeroOrMore(join)
+   concatenates the nests. *)
+Inductive jnest := JN (out : jv) (child : option jnest).
+
+Fixpoint to_join_call (n : jnest) : list jv :=
+  match n with JN o c => o :: match c with Some c' => to_join_call c' | None => [] end end.
+
+(* how the grammar nests a run of joins: every join but the last of the run is ON-less and takes the rest as its child *)
+Fixpoint nest (first : jv) (rest : list jv) : jnest :=
+  match rest with [] => JN first None | r :: rs => JN first (Some (nest r rs)) end.
+
+Definition from_list (t0 : jv) (runs : list (jv * list jv)) : list jv :=
+  t0 :: List.concat (map (fun r => to_join_call (nest (fst r) (snd r))) runs).
+
